@@ -3,9 +3,12 @@ mod core;
 mod gval;
 mod known;
 mod norm;
+mod prog;
+mod proggen;
 mod props;
 mod pyoracle;
 mod reflex;
+mod refsem;
 mod runner;
 mod tape;
 mod ucgrun;
@@ -15,6 +18,7 @@ use runner::{Factory, RunConfig};
 
 fn factory_for(id: &str) -> Option<(&'static str, Factory)> {
     Some(match id {
+        "C01" => ("C01", |t| Box::new(props::c01::C01::new(t)) as Box<dyn Property>),
         "C02" => ("C02", |t| Box::new(props::c02::C02::new(t)) as Box<dyn Property>),
         "C03" => ("C03", |t| Box::new(props::c03::C03::new(t)) as Box<dyn Property>),
         "C12" => ("C12", |t| Box::new(props::c12::C12::new(t)) as Box<dyn Property>),
